@@ -177,7 +177,10 @@ class ShardResult:
         if t == 'counts':
             for k, v in r.items():
                 if k != 'type' and not k.startswith('_'):
-                    self.counts[k] = self.counts.get(k, 0) + v
+                    if k.startswith('max_'):
+                        self.counts[k] = max(self.counts.get(k, 0), v)
+                    else:
+                        self.counts[k] = self.counts.get(k, 0) + v
         elif t == 'violation':
             self.violations.append((r['key'], r.get('detail')))
         elif t == 'violation_total':
@@ -268,7 +271,10 @@ class Report:
     def absorb(self, res, crash_key_prefix='crash'):
         """Fold a ShardResult in. Crashes are violations keyed by their journal tag."""
         for k, v in res.counts.items():
-            self.coverage[k] = self.coverage.get(k, 0) + v
+            if k.startswith('max_'):
+                self.coverage[k] = max(self.coverage.get(k, 0), v)
+            else:
+                self.coverage[k] = self.coverage.get(k, 0) + v
         seen = {}
         for key, det in res.violations:
             self.violation(key, det, 0)
